@@ -324,41 +324,42 @@ Proof.
   destruct vo; [reflexivity|cbn in T; lia].
 Qed.
 
-(* ---------- every reachable state satisfies the invariant ---------- *)
-Theorem reach_inv h d : reach h d -> Inv d (values h).
+(* ---------- every state reachable in process satisfies the invariant ---------- *)
+Theorem reach_inv h d : reach h d -> inprocess h -> Inv d (values h).
 Proof.
-  induction 1; cbn [values].
+  induction 1; cbn [values inprocess]; intros HP.
   - eapply inv_new; eauto.
+  - contradiction.
   - apply inv_push; auto.
-  - apply inv_push.
+  - specialize (IHreach HP). apply inv_push.
     + apply inv_compress; auto. unfold td_needs_compress_on_update in H0. apply Z.eqb_eq in H0.
       intros E. rewrite E in H0. cbn [length] in H0. pose proof (buf_limit_pos _ (inv_k _ _ IHreach)). lia.
     + unfold td_needs_compress_on_update, td_compress_with.
       destruct (td_buf d) eqn:Eb.
-      * unfold td_needs_compress_on_update in H0. rewrite Eb in H0. exact H0 || (apply Z.eqb_eq in H0; cbn in H0; pose proof (buf_limit_pos _ (inv_k _ _ IHreach)); lia).
+      * unfold td_needs_compress_on_update in H0. rewrite Eb in H0. apply Z.eqb_eq in H0. cbn in H0. pose proof (buf_limit_pos _ (inv_k _ _ IHreach)). lia.
       * unfold adopt. cbn [td_buf td_k length]. apply Z.eqb_neq. pose proof (buf_limit_pos _ (inv_k _ _ IHreach)). lia.
-  - exact IHreach.
+  - auto.
   - apply inv_compress; auto.
-  - rewrite (inv_empty_vals o (values h2) IHreach2 H1), app_nil_r. exact IHreach1.
-  - apply inv_merge; auto.
+  - destruct HP as [HP1 HP2]. rewrite (inv_empty_vals o (values h2) (IHreach2 HP2) H1), app_nil_r. auto.
+  - destruct HP as [HP1 HP2]. apply inv_merge; auto.
 Qed.
 
 (* ---------- what the properties say, read off the invariant ---------- *)
-Theorem td_total_exact h d : reach h d -> td_total d = Z.of_nat (length (values h)).
-Proof. intros R. apply (inv_total _ _ (reach_inv _ _ R)). Qed.
+Theorem td_total_exact h d : reach h d -> inprocess h -> td_total d = Z.of_nat (length (values h)).
+Proof. intros R P. apply (inv_total _ _ (reach_inv _ _ R P)). Qed.
 
-Theorem td_minmax_exact h d : reach h d -> is_min (td_min d) (values h) /\ is_max (td_max d) (values h).
-Proof. intros R. pose proof (reach_inv _ _ R) as I. split; [apply (inv_min _ _ I)|apply (inv_max _ _ I)]. Qed.
+Theorem td_minmax_exact h d : reach h d -> inprocess h -> is_min (td_min d) (values h) /\ is_max (td_max d) (values h).
+Proof. intros R P. pose proof (reach_inv _ _ R P) as I. split; [apply (inv_min _ _ I)|apply (inv_max _ _ I)]. Qed.
 
-Theorem buffer_bound h d : reach h d -> (Z.of_nat (length (td_buf d)) <= buf_limit (td_k d))%Z.
-Proof. intros R. apply (inv_buflen _ _ (reach_inv _ _ R)). Qed.
+Theorem buffer_bound h d : reach h d -> inprocess h -> (Z.of_nat (length (td_buf d)) <= buf_limit (td_k d))%Z.
+Proof. intros R P. apply (inv_buflen _ _ (reach_inv _ _ R P)). Qed.
 
 (* centroid weights sum to total_weight (with the buffered values), means sorted and inside [min, max] *)
-Theorem inproc_structure h d : reach h d ->
+Theorem inproc_structure h d : reach h d -> inprocess h ->
   (sumw (td_cs d) + Z.of_nat (length (td_buf d)))%Z = td_total d /\ sortedP (td_cs d) /\
   (forall c, In c (td_cs d) -> exists mn mx, td_min d = Some mn /\ td_max d = Some mx /\ mn <= c_mean c /\ c_mean c <= mx).
 Proof.
-  intros R. pose proof (reach_inv _ _ R) as I. split; [unfold td_total; rewrite (inv_cw _ _ I); reflexivity|].
+  intros R P. pose proof (reach_inv _ _ R P) as I. split; [unfold td_total; rewrite (inv_cw _ _ I); reflexivity|].
   split; [apply (inv_sorted _ _ I)|]. intros c Hc.
   pose proof (inv_cs_lo _ _ I c Hc) as H1. pose proof (inv_cs_hi _ _ I c Hc) as H2.
   destruct (td_min d) as [mn|], (td_max d) as [mx|]; cbn in H1, H2; try contradiction. exists mn, mx. auto.
@@ -366,11 +367,11 @@ Qed.
 
 (* a compressed, non-empty in-process digest presents a well-formed view whose first / last means
    ARE min / max: all the C10 theorems apply to it *)
-Theorem inproc_view_wf h d : reach h d -> td_buf d = [] -> td_cs d <> [] ->
+Theorem inproc_view_wf h d : reach h d -> inprocess h -> td_buf d = [] -> td_cs d <> [] ->
   wf_view (td_view d) /\ unit_ends_tight (td_view d) /\
   v_min (td_view d) == c_mean (firstc (td_cs d)) /\ c_mean (lastc (td_cs d)) == v_max (td_view d).
 Proof.
-  intros R Hb Hc. pose proof (reach_inv _ _ R) as I.
+  intros R P Hb Hc. pose proof (reach_inv _ _ R P) as I.
   pose proof (inv_amin _ _ I) as A. pose proof (inv_amax _ _ I) as B. unfold attained_min, attained_max in A, B. rewrite Hb in A, B.
   assert (E1 : v_min (td_view d) == c_mean (firstc (td_cs d))).
   { unfold td_view. cbn [v_min]. destruct (td_min d) as [mn|]; [|destruct A; congruence].
@@ -390,5 +391,4 @@ Qed.
 Lemma td_new_ok k : (10 <= k)%Z -> exists d, td_new k = Ok d.
 Proof. intros H. unfold td_new. rewrite MIN_K_eq. replace (k <? 10)%Z with false by lia. eauto. Qed.
 
-Lemma inproc_wf_view h d : reach h d -> td_buf d = [] -> td_cs d <> [] -> wf_view (td_view d).
-Proof. intros R B C. apply (inproc_view_wf h d R B C). Qed.
+
